@@ -124,7 +124,10 @@ def get_utility_and_feasibility_function(
 
             node_weights = multiply_weights(**weights)
 
-            ccv = (ccvs_at_nodes * node_weights).sum()
+            # Nodes that are reached with probability zero do not contribute to the
+            # expectation, also if the value function is infinite there (0 * -inf would
+            # otherwise turn a finite expectation into NaN).
+            ccv = jnp.where(node_weights == 0, 0, ccvs_at_nodes * node_weights).sum()
 
             big_u = u + kwargs["params"]["beta"] * ccv
             return big_u, f
